@@ -70,8 +70,33 @@ func (s *SessionStore) Load(req *http.Request) (*sessions.SessionState, error) {
 // Clear clears any saved session information by writing a cookie to
 // clear the session
 func (s *SessionStore) Clear(rw http.ResponseWriter, req *http.Request) error {
+	// Session cookies already written to this response (for example by a
+	// session refresh earlier in the same request) must not outlive the clear:
+	// the browser never presented them, so no clearing cookie would be sent for them.
+	s.dropWrittenSessionCookies(rw)
 	s.clearCookiesExcept(rw, req, nil)
 	return nil
+}
+
+// dropWrittenSessionCookies removes every session cookie (CookieName,
+// CookieName_<number>) that has already been set on the response
+func (s *SessionStore) dropWrittenSessionCookies(rw http.ResponseWriter) {
+	written := rw.Header()["Set-Cookie"]
+	if len(written) == 0 {
+		return
+	}
+	kept := make([]string, 0, len(written))
+	for _, line := range written {
+		name, _, _ := strings.Cut(line, "=")
+		if !isSessionCookieName(s.Cookie.Name, strings.TrimSpace(name)) {
+			kept = append(kept, line)
+		}
+	}
+	if len(kept) == 0 {
+		rw.Header().Del("Set-Cookie")
+		return
+	}
+	rw.Header()["Set-Cookie"] = kept
 }
 
 // clearCookiesExcept writes a clearing cookie for every session cookie
